@@ -598,3 +598,11 @@ NGRAM_SET = "                    if self.ngram == -1:\n                        s
 add('C11', 'scorer-ngram-from-level-field', OSCF, NGRAM_SET, NGRAM_SET.replace("len(line[1])", "len(line[0])"), 'fire', 'C11.R20')
 add('C11', 'scorer-ngram-guard-never-true', OSCF, NGRAM_SET, NGRAM_SET.replace("== -1", "== -2"), 'fire', 'C11.R20')
 add('C11', 'scorer-ngram-guard-operands-swapped', OSCF, NGRAM_SET, NGRAM_SET.replace("self.ngram == -1", "-1 == self.ngram"), 'silent')
+
+# ---- mutation sweep (third run): the per-level password tally of the third pass ------------------------------------------
+RTF3 = 'lib_trainer/run_trainer.py'
+LVL_TALLY = "            omen_levels_count[level] += 1"
+add('C18', 'level-tally-by-two', RTF3, LVL_TALLY, "            omen_levels_count[level] += 2", 'fire', 'C18.R22')
+add('C18', 'level-tally-deleted', RTF3, LVL_TALLY, "            pass", 'fire', 'C18.R22')
+add('C11', 'level-tally-under-the-count', RTF3, LVL_TALLY, "            omen_levels_count[num_parsed_so_far] += 1", 'fire', 'C11.R23')
+add('C18', 'level-tally-counter-update', RTF3, LVL_TALLY, "            omen_levels_count.update([level])", 'silent')
